@@ -87,7 +87,11 @@ func ParentMain(propID, tier string, seed uint64, replay string) int {
 		fmt.Fprintln(os.Stderr, "cannot create scratch dir:", err)
 		return 2
 	}
-	defer os.RemoveAll(scratch)
+	if os.Getenv("VERIF_KEEP_SCRATCH") == "" {
+		defer os.RemoveAll(scratch)
+	} else {
+		fmt.Fprintln(os.Stderr, "scratch kept:", scratch)
+	}
 
 	nbatch := 0
 	if p.Batches != nil {
